@@ -186,6 +186,8 @@ def two_resolutions(k):
             ops = [("x < 3", lambda: (x < 3).lc.value, (xv < 3 * one) * 1),
                    ("x >= 1.5", lambda: (x >= 1.5).lc.value, (xv >= (3 * one) // 2) * 1),
                    ("3 - x", lambda: (3 - x).lc.value, 3 * one - xv),
+                   ("x * 1.5 (product rescaled by the resolution in effect)", lambda: (x * 1.5).lc.value, (xv * ((3 * one) // 2)) // one),
+                   ("1.5 * x", lambda: (1.5 * x).lc.value, (xv * ((3 * one) // 2)) // one),
                    ("selection of the constant 3", lambda: k.br.if_then_else(x < 3, x, 3).lc.value, xv + (1 - (xv < 3 * one)) * (3 * one - xv))]
             for nm, f, want in ops:
                 try:
